@@ -60,7 +60,7 @@ PARTIAL = [
     "tvisit_detached_partial_commit_fails; frame oracle on the real objects + K1 on every run",
 ]
 RULE = ("seeded histories (0-25 generated operations) followed by 3 operations built to be rejected, drawn from: "
-        "constructor with a repeated child / twin ids / a child attached elsewhere / a stale child whose id is "
+        "constructor with a repeated child / one object below a detached wrapper and directly / twin ids / a child attached elsewhere / a stale child whose id is "
         "registered / an id collision under ensure_unique_id; attach of a detached tree containing such a node; "
         "replace with forbidden keys, repeated children, parent or registry collision; replace_with an attached "
         "subtree, None on a required field, a node of a class the parent does not accept, a node that cannot be "
@@ -72,7 +72,8 @@ RULE = ("seeded histories (0-25 generated operations) followed by 3 operations b
 TRUSTED = ["sha256 idealised (equality patterns), weak registry as in C18"]
 ASSUMPTIONS = ["the history before the rejected call is admissible (no cycle, no object twice in a built value); the "
                "rejected call itself may repeat an object among the direct children (that is what the duplicate check "
-               "rejects) but never deeper",
+               "rejects) but never deeper, except the directed constructor `new-dup-deep` (an attached root below a detached "
+               "wrapper and directly)",
                "constructor arguments original_id / id_collision_with are left at None",
                "an exception raised by a user callback of ASTTransformer.execute is not a documented error (not generated)"]
 BUDGET = {"quick": 240, "thorough": 2400}
